@@ -669,3 +669,131 @@ def explicit_err_returns(n, into_closures=False):
         if e.get("k") == "Call" and norm(e.get("callee", "")) == "core::result::Result::Err":
             out.append(r)
     return out
+
+
+# ----------------------------------------------------------------------------------------------
+# polymorphic (pre-monomorphisation) call graph over local bodies, keyed by unique def path `dp`
+
+def _operands(rv):
+    for k in ("op", "a", "b"):
+        if k in rv and isinstance(rv[k], dict):
+            yield rv[k]
+    for o in rv.get("ops", []):
+        yield o
+
+
+class CallGraph:
+    """edges: direct calls resolved by rustc (`resolved_dp`), closures created, fn items used as values,
+    and - over-approximating - every local impl of a local trait method when the receiver type is generic."""
+
+    def __init__(self, crate):
+        self.c = crate
+        self.bodies = crate.mir_by_dp
+        # trait method name -> impl method dps, for local traits
+        self.trait_impls = defaultdict(list)
+        for imp in crate.impls:
+            tr = imp.get("trait")
+            if not tr:
+                continue
+            for it in imp["items"]:
+                self.trait_impls[(tr, it["name"])].append(it["dp"])
+        self._edges = {}
+
+    def edges(self, dp):
+        if dp in self._edges:
+            return self._edges[dp]
+        out = []
+        m = self.bodies.get(dp)
+        if m:
+            for bi, bl in enumerate(m["blocks"]):
+                for s in bl["stmts"]:
+                    if s["k"] != "Assign":
+                        continue
+                    rv = s["rv"]
+                    if rv["k"] == "Aggregate" and rv.get("closure_dp"):
+                        out.append((rv["closure_dp"], "closure", s.get("sp", "")))
+                    for o in _operands(rv):
+                        c = o.get("c") if isinstance(o, dict) else None
+                        if c and c.get("fn_dp"):
+                            out.append((c.get("resolved_dp") or c["fn_dp"], "fnref", s.get("sp", "")))
+                t = bl.get("term")
+                if not t or t["k"] not in ("Call", "TailCall"):
+                    continue
+                for a in t.get("args", []):
+                    c = a.get("c")
+                    if c and c.get("fn_dp"):
+                        out.append((c.get("resolved_dp") or c["fn_dp"], "fnref", t.get("sp", "")))
+                if t.get("resolved_dp") and not t.get("unresolved"):
+                    tgt = t["resolved_dp"]
+                    if tgt in self.bodies:
+                        out.append((tgt, "call", t.get("sp", "")))
+                    elif t.get("trait") and t.get("ikind") in ("Item",) and (t["trait"], t.get("callee_name")) in self.trait_impls \
+                            and t["resolved_dp"] == t.get("callee_dp"):
+                        # resolved to the trait's own (default) method: nothing more to add
+                        pass
+                    if t.get("ikind") == "Virtual" and t.get("trait"):
+                        for d in self.trait_impls.get((t["trait"], t.get("callee_name")), []):
+                            out.append((d, "dyn", t.get("sp", "")))
+                elif t.get("callee_dp"):
+                    # unresolved generic trait call: all local impls of that method
+                    for d in self.trait_impls.get((t.get("trait"), t.get("callee_name")), []):
+                        out.append((d, "generic", t.get("sp", "")))
+        self._edges[dp] = out
+        return out
+
+    def reach(self, roots, stop=None):
+        """dict dp -> (parent dp, edge kind, where) for everything reachable from roots"""
+        seen = {}
+        st = []
+        for r in roots:
+            if r not in seen:
+                seen[r] = None
+                st.append(r)
+        while st:
+            x = st.pop()
+            if stop and stop(x):
+                continue
+            for tgt, kind, where in self.edges(x):
+                if tgt not in seen and tgt in self.bodies:
+                    seen[tgt] = (x, kind, where)
+                    st.append(tgt)
+        return seen
+
+    def path_to(self, seen, dp):
+        out = []
+        cur = dp
+        while cur is not None:
+            out.append(norm(self.bodies[cur]["path"]) if cur in self.bodies else cur)
+            par = seen.get(cur)
+            cur = par[0] if par else None
+        return list(reversed(out))
+
+
+PANIC_CALLEES = re.compile(
+    r"^(core::panicking::(panic|panic_fmt|panic_display|panic_explicit|unreachable_display|panic_nounwind|assert_failed|panic_str_2015|panic_const::.*)"
+    r"|core::option::Option::(unwrap|expect)"
+    r"|core::result::Result::(unwrap|expect|unwrap_err|expect_err)"
+    r"|std::rt::begin_panic|core::panicking::assert_failed_inner|core::option::unwrap_failed|core::option::expect_failed"
+    r"|core::result::unwrap_failed|std::process::abort|std::process::exit)$")
+
+
+def panic_sites(mir):
+    """explicit panic sites of one MIR body: (kind, where, detail)"""
+    out = []
+    for bi, bl in enumerate(mir["blocks"]):
+        t = bl.get("term")
+        if not t or t["k"] != "Call":
+            continue
+        c = norm(t.get("resolved") or t.get("callee") or "")
+        if PANIC_CALLEES.match(c):
+            kind = last_seg(c)
+            mac = t.get("mac", "")
+            if c.startswith("core::panicking::"):
+                kind = "panic"
+                # distinguish by message when constant
+                for a in t.get("args", []):
+                    cc = a.get("c")
+                    if cc and "disp" in cc and "unreachable" in cc["disp"]:
+                        kind = "unreachable"
+            out.append((kind, t.get("sp", ""), c))
+    return out
